@@ -19,11 +19,11 @@ Proof.
   pose proof (body_plain a Ha) as Hp. rewrite Forall_forall in Hp. apply Hp, Hr.
 Qed.
 
-Lemma step_plain_add : forall l p tz rdt inc ser udp so r, plain r ->
-  step l (mkSt p (Some tz) rdt inc ser udp so false false false) (single r) =
-  (mkSt p (Some (zput (rkey r) (add1 (look tz (rkey r)) (r_ttl r) (r_data r)) tz)) rdt inc ser udp so false false false, None).
+Lemma step_plain_add : forall l p tz rdt inc ser udp so rq r, plain r ->
+  step l (mkSt p (Some tz) rdt inc ser udp so false false false rq) (single r) =
+  (mkSt p (Some (zput (rkey r) (add1 (look tz (rkey r)) (r_ttl r) (r_data r)) tz)) rdt inc ser udp so false false false rq, None).
 Proof.
-  intros l p tz rdt inc ser udp so r Hp. pose proof Hp as (Hc & Ht & Hn & Httl).
+  intros l p tz rdt inc ser udp so rq r Hp. pose proof Hp as (Hc & Ht & Hn & Httl).
   unfold step. cbn [done txn expecting delmode].
   assert (E : (s_type (single r) =? tSOA) = false) by (apply Z.eqb_neq; exact Ht).
   rewrite E. cbn [andb].
@@ -31,14 +31,14 @@ Proof.
   rewrite Z. cbn [negb]. rewrite (t_add_single tz r Hp). reflexivity.
 Qed.
 
-Lemma step_plain_del : forall l p tz rdt inc ser udp so r, plain r ->
-  step l (mkSt p (Some tz) rdt inc ser udp so false false true) (single r) =
+Lemma step_plain_del : forall l p tz rdt inc ser udp so rq r, plain r ->
+  step l (mkSt p (Some tz) rdt inc ser udp so false false true rq) (single r) =
   match del1 (look tz (rkey r)) (r_data r) with
-  | Some oe => (mkSt p (Some (zset (rkey r) oe tz)) rdt inc ser udp so false false true, None)
-  | None => (mkSt p (Some tz) rdt inc ser udp so false false true, Some eDeleteNotExact)
+  | Some oe => (mkSt p (Some (zset (rkey r) oe tz)) rdt inc ser udp so false false true rq, None)
+  | None => (mkSt p (Some tz) rdt inc ser udp so false false true rq, Some eDeleteNotExact)
   end.
 Proof.
-  intros l p tz rdt inc ser udp so r Hp. pose proof Hp as (Hc & Ht & Hn & Httl).
+  intros l p tz rdt inc ser udp so rq r Hp. pose proof Hp as (Hc & Ht & Hn & Httl).
   unfold step. cbn [done txn expecting delmode].
   assert (E : (s_type (single r) =? tSOA) = false) by (apply Z.eqb_neq; exact Ht).
   rewrite E. cbn [andb].
@@ -47,19 +47,19 @@ Proof.
   destruct (del1 (look tz (rkey r)) (r_data r)); reflexivity.
 Qed.
 
-Lemma loopn_adds : forall rs p tz rdt inc ser udp so, Forall plain rs ->
-  loopn (mkSt p (Some tz) rdt inc ser udp so false false false) (map single rs) =
-  (mkSt p (Some (adds tz rs)) rdt inc ser udp so false false false, None).
+Lemma loopn_adds : forall rs p tz rdt inc ser udp so rq, Forall plain rs ->
+  loopn (mkSt p (Some tz) rdt inc ser udp so false false false rq) (map single rs) =
+  (mkSt p (Some (adds tz rs)) rdt inc ser udp so false false false rq, None).
 Proof.
-  induction rs as [|r rs IH]; intros p tz rdt inc ser udp so Hf; cbn [map loopn adds]; [reflexivity|].
+  induction rs as [|r rs IH]; intros p tz rdt inc ser udp so rq Hf; cbn [map loopn adds]; [reflexivity|].
   inversion Hf; subst. rewrite step_plain_add by assumption. apply IH; assumption.
 Qed.
 
-Lemma loopn_dels : forall rs p tz tz' rdt inc ser udp so, Forall plain rs -> dels tz rs = Some tz' ->
-  loopn (mkSt p (Some tz) rdt inc ser udp so false false true) (map single rs) =
-  (mkSt p (Some tz') rdt inc ser udp so false false true, None).
+Lemma loopn_dels : forall rs p tz tz' rdt inc ser udp so rq, Forall plain rs -> dels tz rs = Some tz' ->
+  loopn (mkSt p (Some tz) rdt inc ser udp so false false true rq) (map single rs) =
+  (mkSt p (Some tz') rdt inc ser udp so false false true rq, None).
 Proof.
-  induction rs as [|r rs IH]; intros p tz tz' rdt inc ser udp so Hf Hd; cbn [map loopn dels] in *.
+  induction rs as [|r rs IH]; intros p tz tz' rdt inc ser udp so rq Hf Hd; cbn [map loopn dels] in *.
   - inversion Hd; reflexivity.
   - inversion Hf; subst. rewrite step_plain_del by assumption.
     destruct (del1 (look tz (rkey r)) (r_data r)); [|discriminate]. apply IH; assumption.
@@ -70,7 +70,7 @@ Variable u : bool.   (* is_udp *)
 
 (* the state of an IXFR in progress *)
 Definition ist (p tz : zone) (ser : Z) (s0 : rrset) (e dm : bool) : st :=
-  mkSt p (Some tz) tIXFR true ser u (Some s0) false e dm.
+  mkSt p (Some tz) tIXFR true ser u (Some s0) false e dm false.
 
 Lemma soa_eqb : forall v w, rrset_eqb (single (soa_rr v)) (single (soa_rr w)) = (v_soa v =? v_soa w).
 Proof.
@@ -108,9 +108,9 @@ Qed.
 
 (* S3: the final SOA, last record of its message *)
 Lemma step_final : forall p tz vn, ttl_ok (v_ttl vn) ->
-  step true (ist p tz (v_serial vn) (single (soa_rr vn)) false false) (single (soa_rr vn)) =
+  step Last (ist p tz (v_serial vn) (single (soa_rr vn)) false false) (single (soa_rr vn)) =
   (mkSt (zput soakey (v_ttl vn, [v_soa vn]) tz) None tIXFR true (v_serial vn) u
-        (Some (single (soa_rr vn))) true false true, None).
+        (Some (single (soa_rr vn))) true false true false, None).
 Proof.
   intros p tz vn Httl. unfold step, ist. cbn [done txn incremental delmode soa set_delmode negb].
   change ((s_type (single (soa_rr vn)) =? tSOA) && (s_name (single (soa_rr vn)) =? origin)) with true. cbv iota.
@@ -211,7 +211,7 @@ Lemma ixfr_records : forall u v0 chain z0,
   exists s1 s2,
     loopn (ist u z0 z0 (v_serial v0) (single (soa_rr vn)) true false) (map single (diff_seqs v0 chain)) = (s1, None)
     /\ done s1 = false
-    /\ step true s1 (single (soa_rr vn)) = (s2, None)
+    /\ step Last s1 (single (soa_rr vn)) = (s2, None)
     /\ done s2 = true /\ zeq (pub s2) (zone_of vn).
 Proof.
   intros u v0 chain z0 Hok Hz vn.
@@ -246,7 +246,7 @@ Proof.
   apply chunking_first in Hch. destruct Hch as (w & ws' & a & -> & Hr & Hw & Hws & Hcat).
   destruct (ixfr_records false v0 chain z0 Hok Hz) as (s1 & s2 & Hl & Hd1 & Hf & Hd2 & Hz2).
   pose proof Hok as (_ & _ & _ & Hser & Hlt).
-  unfold inbound_xfr. rewrite init_ixfr. cbn [Z.eqb tIXFR Pos.eqb]. rewrite drive_cons.
+  unfold inbound_xfr, xfr_run. rewrite init_ixfr. cbn [Z.eqb tIXFR Pos.eqb]. rewrite drive_cons.
   rewrite (first_message_ixfr z0 (v_serial v0) false w (soa_rr (last chain v0)) a Hw Hr) by (split; reflexivity).
   cbv zeta. change (r_data (soa_rr (last chain v0)) mod two32) with (v_serial (last chain v0)).
   assert (Hne : (v_serial (last chain v0) =? v_serial v0) = false).
@@ -268,7 +268,7 @@ Proof.
   intros v0 chain z0 w Hok Hz Hw Hr.
   destruct (ixfr_records true v0 chain z0 Hok Hz) as (s1 & s2 & Hl & Hd1 & Hf & Hd2 & Hz2).
   pose proof Hok as (Hne0 & _ & _ & Hser & Hlt).
-  unfold inbound_xfr. rewrite init_ixfr. cbn [Z.eqb tIXFR Pos.eqb]. rewrite drive_cons.
+  unfold inbound_xfr, xfr_run. rewrite init_ixfr. cbn [Z.eqb tIXFR Pos.eqb]. rewrite drive_cons.
   unfold ixfr_stream in Hr. cbv zeta in Hr.
   rewrite (first_message_ixfr z0 (v_serial v0) true w (soa_rr (last chain v0)) _ Hw Hr) by (split; reflexivity).
   cbv zeta. change (r_data (soa_rr (last chain v0)) mod two32) with (v_serial (last chain v0)).
@@ -294,16 +294,16 @@ Lemma cont_first_error : forall ws a s x rest s' e,
   exists n, cont true (loop s (map single a)) ws = (Error e (pub s'), n).
 Proof.
   induction ws as [|w ws IH]; intros a s x rest s' e Hrun Hh Hcat Hst.
-  - cbn [map concat] in Hcat. rewrite app_nil_r in Hcat. subst a. cbn [map loop]. rewrite Hst. cbn [cont]. eauto.
+  - cbn [map concat] in Hcat. rewrite app_nil_r in Hcat. subst a. cbn [map loopT]. rewrite Hst. cbn [cont]. eauto.
   - destruct a as [|y a].
-    + cbn [map loop cont]. destruct Hrun as (Hd & Hrest). rewrite Hd.
+    + cbn [map loopT cont]. destruct Hrun as (Hd & Hrest). rewrite Hd.
       inversion Hh as [|? ? Hw Hws]; subst.
       rewrite drive_cons. unfold from_wire. rewrite group_true.
       rewrite process_running; [|split; assumption|apply Hw|apply Hw]. cbn [m_answer].
       cbn [app map concat] in Hcat.
       destruct (IH (w_records w) s x rest s' e) as [n Hn]; auto. { split; assumption. }
       rewrite Hn. eauto.
-    + cbn [app] in Hcat. inversion Hcat; subst. cbn [map loop]. rewrite Hst. cbn [cont]. eauto.
+    + cbn [app] in Hcat. inversion Hcat; subst. cbn [map loopT]. rewrite Hst. cbn [cont]. eauto.
 Qed.
 
 (* "based on a different serial": the difference sequences start at v0's serial but the client
@@ -318,7 +318,7 @@ Proof.
   intros v0 chain z ser ws Hne Hch Hs0 Hsn Hlt Hsoa.
   unfold ixfr_stream in Hch. cbv zeta in Hch.
   apply chunking_first in Hch. destruct Hch as (w & ws' & a & -> & Hr & Hw & Hws & Hcat).
-  unfold inbound_xfr. rewrite init_ixfr. cbn [Z.eqb tIXFR Pos.eqb]. rewrite drive_cons.
+  unfold inbound_xfr, xfr_run. rewrite init_ixfr. cbn [Z.eqb tIXFR Pos.eqb]. rewrite drive_cons.
   rewrite (first_message_ixfr z ser false w (soa_rr (last chain v0)) a Hw Hr) by (split; reflexivity).
   cbv zeta. change (r_data (soa_rr (last chain v0)) mod two32) with (v_serial (last chain v0)).
   apply Z.eqb_neq in Hsn. rewrite Hsn, Hlt. cbn [andb]. rewrite after_tcp by reflexivity.
@@ -351,10 +351,10 @@ Proof.
             (exists e z, r = (Error e z, n)) -> exists e n, inbound_xfr z0 tIXFR (Some (v_serial v0)) false ws = (Error e z0, n)).
   { intros r n -> [e [z H]]. pose proof (error_leaves_zone _ _ _ _ _ _ _ _ H). subst z. eauto. }
   destruct ws as [|w ws'].
-  { eapply NE; [reflexivity|]. unfold inbound_xfr. rewrite init_ixfr. cbn. eauto. }
+  { eapply NE; [reflexivity|]. unfold inbound_xfr, xfr_run. rewrite init_ixfr. cbn. eauto. }
   inversion Hh as [|? ? Hw Hws]; subst.
   destruct (w_records w) as [|r0 a] eqn:Hr.
-  { eapply NE; [reflexivity|]. unfold inbound_xfr. rewrite init_ixfr. cbn [Z.eqb tIXFR Pos.eqb]. rewrite drive_cons.
+  { eapply NE; [reflexivity|]. unfold inbound_xfr, xfr_run. rewrite init_ixfr. cbn [Z.eqb tIXFR Pos.eqb]. rewrite drive_cons.
     unfold process_message, from_wire. cbn [txn ixfr_init incremental pub set_txn rdtype m_rcode m_question m_answer].
     destruct Hw as [Hrc Hqq]. rewrite Hrc. cbn [Z.eqb negb]. rewrite (header_ok_question tIXFR w (conj Hrc Hqq)).
     cbn [soa]. rewrite Hr. cbn. eauto. }
@@ -372,7 +372,7 @@ Proof.
     as [n [z Hn]]; try assumption.
   { repeat split; try reflexivity; discriminate. }
   apply (NE _ n eq_refl). exists eEOF, z.
-  unfold inbound_xfr. rewrite init_ixfr. cbn [Z.eqb tIXFR Pos.eqb]. rewrite drive_cons.
+  unfold inbound_xfr, xfr_run. rewrite init_ixfr. cbn [Z.eqb tIXFR Pos.eqb]. rewrite drive_cons.
   rewrite (first_message_ixfr z0 (v_serial v0) false w (soa_rr (last chain v0)) a Hw Hr) by (split; reflexivity).
   cbv zeta. change (r_data (soa_rr (last chain v0)) mod two32) with (v_serial (last chain v0)).
   assert (Hne : (v_serial (last chain v0) =? v_serial v0) = false).
